@@ -292,6 +292,14 @@ def replay(payload):
     if "calls" not in rp:
         return True, "replay file names a broken obligation (no concrete input): " + str(payload.get("no_longer_checks"))[:500]
     calls = rp["calls"]
+    if rp.get("hashseed") is not None:
+        x = C.run_tasks([{"fn": "c07.impl_history", "calls": calls, "fresh": True}], timeout=300, hashseed="0")[0]
+        y = C.run_tasks([{"fn": "c07.impl_history", "calls": calls, "fresh": True}], timeout=300, hashseed=str(rp["hashseed"]))[0]
+        try:
+            same = x.get("outcomes") == y.get("outcomes") and mathematical_view(x.get("last")) == mathematical_view(y.get("last"))
+        except Exception as e:   # noqa
+            return True, "could not compare the two hash seeds: %s" % e
+        return same, "PYTHONHASHSEED=0 vs %s: %s" % (rp["hashseed"], "same result" if same else "different results")
     a = C.run_tasks([{"fn": "c07.impl_history", "calls": calls, "fresh": True}], timeout=300)[0]
     b = C.run_tasks([{"fn": "c07.impl_history", "calls": [calls[-1]], "fresh": True}], timeout=300)[0]
     ok = a.get("outcomes", [None])[-1] == b.get("outcomes", [None])[-1] and canon(a.get("last")) == canon(b.get("last")) and not any(a.get("modified", []))
